@@ -22,6 +22,12 @@ def make_cases(rng, tier, diff_here):
             for prev in ("fresh", "stale"):
                 hold = rng.choice(flat) if flat and rng.random() < 0.85 else ""
                 cases.append(base("ExecuteDAGModel", rules, layers=ly, hold=hold, prev=prev))
+    # a failing rule that is the last of its layer to finish, with an error that is expensive to record
+    for ly in ([["ra", "rb"], ["rc"]], [["ra"], ["rb", "rc"], ["rd"]], [["rb", "zz", "ra"], [], ["rc", "rd"]]):
+        for i in range(2):
+            rules = rules_with_failing(5, (i,))
+            rules[i]["kind"] = "bigfail"
+            cases.append(base("ExecuteDAGModel", rules, layers=ly, hold=NAMES[i]))
     n_rand = 150 if tier == "quick" else 5000
     for _ in range(n_rand):
         cases.append(rand_case(rng, "ExecuteDAGModel", maxk=6 if tier == "quick" else 10))
